@@ -24,6 +24,8 @@ fn main() {
     "c12" => vh::engines::c12::run(),
     "c12worker" => vh::engines::c12::worker(&args[2..]),
     "c13" => vh::engines::c13::run(),
+    "c19" => vh::engines::c19::run(),
+    "c19worker" => vh::engines::c19::worker(&args[2..]),
     "c14" => vh::engines::c14::run(),
     "c15" => vh::engines::c15::run(),
     "c16" => vh::engines::c16::run(),
@@ -34,6 +36,35 @@ fn main() {
       let me = dmntk_model_evaluator::ModelEvaluator::new(&defs).unwrap_or_else(|e| panic!("build: {}", e));
       let ctx = dmntk_feel_evaluator::evaluate_context(&dmntk_feel::Scope::default(), &args[4]).unwrap();
       println!("{}", me.evaluate_invocable(&args[3], &ctx));
+    }
+    "draw" => {
+      // debug helper: vh draw <rows|cols> <ni> <no> <na> <nr> <flags: n=name v=values l=label w=wide m=merged-hp>
+      use vh::drawing::*;
+      let rows = args[2] == "rows";
+      let (ni, no, na, nr): (usize, usize, usize, usize) = (args[3].parse().unwrap(), args[4].parse().unwrap(), args[5].parse().unwrap(), args[6].parse().unwrap());
+      let flags = args.get(7).cloned().unwrap_or_default();
+      let l = |s: &str| vec![s.to_string()];
+      let t = SrcTable {
+        name: if flags.contains('n') { Some("Item name".into()) } else { None },
+        hit_policy: "C+".into(),
+        rules_as_rows: rows,
+        inputs: (0..ni).map(|k| (l(&format!("In{}", k)), if flags.contains('v') { Some(l("<5,>=5")) } else { None })).collect(),
+        output_label: if flags.contains('l') || no == 1 { Some(l("Label")) } else { None },
+        outputs: (0..no).map(|k| (if no > 1 { l(&format!("Out{}", k)) } else { vec![] }, if flags.contains('v') { Some(l("1,2")) } else { None })).collect(),
+        annotations: (0..na).map(|k| l(&format!("Ann{}", k))).collect(),
+        rules: (0..nr).map(|r| ((0..ni).map(|_| l("<5")).collect(), (0..no).map(|_| l(&format!("{}", r))).collect(), (0..na).map(|_| l("note")).collect())).collect(),
+      };
+      let style = Style { wide_first_data_column: flags.contains('w'), wide_all: false, name_box: if flags.contains('2') { 2 } else if flags.contains('1') { 1 } else { 0 }, merged_hit_policy_cell: flags.contains('m') };
+      match render(&t, &style) {
+        Ok(text) => {
+          println!("{}", text);
+          match dmntk_recognizer::build(&text) {
+            Ok(dt) => println!("{:?}", dt),
+            Err(e) => println!("ERR {}", e),
+          }
+        }
+        Err(e) => println!("RENDER ERR {}", e),
+      }
     }
     "parse" => {
       // debug helper: vh parse "<names,comma separated>" "<text>"
